@@ -185,7 +185,10 @@ static void val_of(OS& o, const Congruence_System& x) {
 static void val_of(OS& o, const Grid_Generator_System& x) { val_tok(o, x); }
 
 template <class T> static std::string val_str(const T& x) {
-  try { OS o; val_of(o, x); return o.str(); }
+  try { OS o; val_of(o, x); std::string s = o.str();
+        // a corrupted object can print numbers of gigabytes: the journal keeps lines short
+        if (s.size() > 20000) return " T 2 unobservable oversized";
+        return s; }
   catch (...) { return " T 2 unobservable " + pplv::exc_class(); }
 }
 
